@@ -180,9 +180,20 @@ def judge(pid, b, o, f, V):
         fu = o.get("full", {})
         if fu.get("st") == "ok" and fu.get("rpos") != total:
             viol(f"{key}: full-copy consumed {fu.get('rpos')} of {total} bytes", "consumed")
+        elif fu.get("st") not in ("ok", None):
+            viol(f"{key}: full-copy did not consume the {total} bytes that were written: {fu.get('st')} {fu.get('msg', '')}", "consumed")
         e = o.get("eps", {})
         if b["mode"] == "body" and e.get("st") == "ok" and e.get("rpos") != total:
             viol(f"{key}: ε-copy consumed {e.get('rpos')} of {total} bytes", "consumed")
+        elif e.get("st") not in ("ok", None):
+            viol(f"{key}: ε-copy did not consume the {total} bytes that were written: {e.get('st')} {e.get('msg', '')}", "consumed")
+        # a structure of blocks other than the one the format prescribes (e.g. an empty block written without
+        # its padding) means some block is not where a reader will look for it
+        exp_b = [(r["off"], r["align"]) for r in b["rows"] if r["field"][-1] == "zero"]
+        got_b = [(ev["pos"], ev["unit"]) for ev in s.get("ev", []) if ev["ev"] == "block"]
+        if len(exp_b) != len(got_b):
+            viol(f"{key}: {len(got_b)} zero-copy blocks were written, the format has {len(exp_b)} for this value "
+                 f"(an empty block still gets its padding)", "blocks")
         # the serializer's structure must be the one the specification's machine went through
         exp_blocks = [(r["off"], r["size"], r["align"]) for r in b["rows"] if r["field"][-1] == "zero"]
         got_blocks = [(ev["pos"], ev["len"], ev["unit"]) for ev in s.get("ev", []) if ev["ev"] == "block"]
